@@ -73,6 +73,21 @@ func (v *Vue) evalElseIfChain(ctx VueContext, node *html.Node, nodes []*html.Nod
 	var result []*html.Node
 	lastChainNodeIdx := 0 // Track the last node in the chain for skipCount
 
+	// chainEnd is the index of the last member of this chain. Whichever branch is chosen, all
+	// members are consumed: the caller must not look at the remaining ones again (a member
+	// that also carries v-for would otherwise be rendered as a loop of its own).
+	chainEnd := 0
+	for idx := 1; idx < len(nodes); idx++ {
+		nextNode := nodes[idx]
+		if nextNode.Type != html.ElementNode {
+			continue
+		}
+		if !helpers.HasAttr(nextNode, "v-else-if") && !helpers.HasAttr(nextNode, "v-else") {
+			break
+		}
+		chainEnd = idx
+	}
+
 	// Check for v-if
 	if vIf := helpers.GetAttr(node, "v-if"); vIf != "" {
 		ok, err := v.evalCondition(ctx, vIf)
@@ -129,7 +144,7 @@ func (v *Vue) evalElseIfChain(ctx VueContext, node *html.Node, nodes []*html.Nod
 				// v-else-if condition is true - evaluate and return this node (don't remove attribute, filter during rendering)
 				// Evaluate the node (evaluateNodeAsElement handles cloning internally)
 				evaluated, err := v.evaluateNodeAsElement(ctx, nextNode, depth)
-				return evaluated, idx, err
+				return evaluated, chainEnd, err
 			}
 			// v-else-if condition is false - continue to next
 			continue
@@ -140,12 +155,12 @@ func (v *Vue) evalElseIfChain(ctx VueContext, node *html.Node, nodes []*html.Nod
 			// v-else always matches - evaluate and return this node (don't remove attribute, filter during rendering)
 			// Evaluate the node (evaluateNodeAsElement handles cloning internally)
 			evaluated, err := v.evaluateNodeAsElement(ctx, nextNode, depth)
-			return evaluated, idx, err
+			return evaluated, chainEnd, err
 		}
 	}
 
 	// No condition in the chain was true - skip all chain nodes anyway
-	return result, lastChainNodeIdx, nil
+	return result, chainEnd, nil
 }
 
 // evaluateNodeAsElement evaluates a single element node with its v-for and other directives.
@@ -155,6 +170,14 @@ func (v *Vue) evaluateNodeAsElement(ctx VueContext, node *html.Node, depth int) 
 
 	// Handle v-for if present
 	if vFor := helpers.GetAttr(node, "v-for"); vFor != "" {
+		// This member has been chosen: its v-else / v-else-if must not travel on to the loop
+		// instances, which would be dropped as chain members without a v-if.
+		if helpers.HasAttr(node, "v-else") || helpers.HasAttr(node, "v-else-if") {
+			chosen := helpers.DeepCloneNode(node)
+			helpers.RemoveAttr(chosen, "v-else")
+			helpers.RemoveAttr(chosen, "v-else-if")
+			node = chosen
+		}
 		loopNodes, err := v.evalFor(ctx, node, vFor, depth+1)
 		if err != nil {
 			return nil, err
@@ -210,8 +233,9 @@ func (v *Vue) evaluateNodeAsElement(ctx VueContext, node *html.Node, depth int) 
 		return evaluated, nil
 	}
 
-	// Regular element node processing (no v-for)
-	hasVHtml := helpers.GetAttr(node, "v-html") != ""
+	// Regular element node processing (no v-for): the same steps as for an element
+	// outside a chain (see evaluate)
+	hasVHtml := helpers.GetAttr(node, "v-html") != "" || helpers.GetAttr(node, "v-text") != ""
 	var newNode *html.Node
 	if hasVHtml {
 		newNode = helpers.DeepCloneNode(node)
@@ -222,7 +246,13 @@ func (v *Vue) evaluateNodeAsElement(ctx VueContext, node *html.Node, depth int) 
 	if err := v.evalVHtml(ctx, newNode); err != nil {
 		return nil, err
 	}
+	if err := v.evalVText(ctx, newNode); err != nil {
+		return nil, err
+	}
 	if _, err := v.evalAttributes(ctx, newNode); err != nil {
+		return nil, err
+	}
+	if err := v.evalVShow(ctx, newNode); err != nil {
 		return nil, err
 	}
 
